@@ -26,10 +26,15 @@ Cells == {"op.DefaultEndpoints", "op.DefaultSupportedClaims", "op.DefaultSupport
           \* two providers with their own storages and signing keys whose key ids coincide: each signs with its own key
           "providerA.tokenSignature", "providerB.tokenSignature",
           \* one provider serving two tenants (issuer from the request host): each tenant honours the ID tokens issued under its own issuer and no others
-          "dynProvider.tenantA.ownHint", "dynProvider.tenantB.ownHint", "dynProvider.tenantB.foreignHint"}
+          "dynProvider.tenantA.ownHint", "dynProvider.tenantB.ownHint", "dynProvider.tenantB.foreignHint",
+          \* one remote key set (rp.NewRemoteKeySet) shared by all verifications; its JWKS lists a key with a key id and, after it, a key without:
+          \* what it has cached keeps serving a token of the first key while the JWKS endpoint is down
+          "sharedKeySet.servesFromCache",
+          \* the exported package-level error values of pkg/op and pkg/oidc (sentinels handed to every caller)
+          "packageLevelErrors"}
 \* cells that have one right value at any time (o.unhealthy lists those that do not show it after the program)
 Healthy == {"callerInterceptorChain", "routerA2.interceptorOrder", "providerA.tokenSignature", "providerB.tokenSignature",
-            "dynProvider.tenantA.ownHint", "dynProvider.tenantB.ownHint", "dynProvider.tenantB.foreignHint"}
+            "dynProvider.tenantA.ownHint", "dynProvider.tenantB.ownHint", "dynProvider.tenantB.foreignHint", "sharedKeySet.servesFromCache"}
 
 Ops == {"op.NewProvider", "op.NewProvider+WithCustomAuthEndpoint", "op.NewProvider+WithCustomTokenEndpoint", "op.NewProvider+WithCustomIntrospectionEndpoint",
         "op.NewProvider+WithCustomUserinfoEndpoint", "op.NewProvider+WithCustomRevocationEndpoint", "op.NewProvider+WithCustomEndSessionEndpoint",
@@ -38,7 +43,11 @@ Ops == {"op.NewProvider", "op.NewProvider+WithCustomAuthEndpoint", "op.NewProvid
         "dynProvider.logout(tenantA)", "dynProvider.logout(tenantB)", "rp.AuthURLHandler.serve(pkce)", "provider.serveAll", "legacy.serveAll", "provider.devicePoll",
         "rp.NewRelyingPartyOIDC(caller)", "rp.NewRelyingPartyOIDC(default)", "rp.EndSession(caller)", "rp.EndSession(default)", "rp.RevokeToken(caller)",
         "rp.RevokeToken(default)", "rp.Userinfo(caller)", "rp.RefreshTokens(caller)", "rp.CodeExchange(caller)", "client.Discover(caller)", "client.Discover(default)",
-        "rs.Introspect(caller)", "tokenexchange.ExchangeToken(caller)"}
+        "rs.Introspect(caller)", "tokenexchange.ExchangeToken(caller)",
+        \* verifications through the shared key set: a token of the first key, a stranger's token under an unknown key id, a token without key id
+        "keySet.verify(good)", "keySet.verify(unknownKid)", "keySet.verify(noKid)",
+        \* an implicit-flow callback at a provider whose signing key does not fit the algorithm it announces (the signer cannot be created)
+        "brokenSignerProvider.implicitCallback"}
 
 \* what the library promises to write on shared cells
 WriteSet(op) == {}
